@@ -142,13 +142,15 @@ def oracle(g, env, inp, opts, has_ignore):
         want = "".join(o for o in out if o)
         if tr[1] != want:
             # does dropping the falsy non-string tokens (0, 0.0, False: `out = [o for o in out if o]`) explain it?
+            # the real filter `out = [o for o in out if o]` runs on the TOP-LEVEL entries (before flattening): a falsy entry
+            # nested inside a group survives
             out2, last = [], 0
             for t, s_, e_ in sc3[1]:
                 out2.append(inp[last:s_])
                 last = e_
-                out2.extend(str(x) for x in _flatten(t.as_list()) if x)
+                out2.extend(t.as_list())
             out2.append(inp[last:])
-            key = "transform:falsy-token-dropped" if tr[1] == "".join(o for o in out2 if o) else "transform"
+            key = "transform:falsy-token-dropped" if tr[1] == "".join(str(x) for x in _flatten([o for o in out2 if o])) else "transform"
             bad.append((key, "transform_string %r but unmatched text + tokens give %r" % (tr[1], want)))
     # (f) split : pieces interleaved with the matched separators restore the input
     for mxs in opts["split"]:
